@@ -3,13 +3,79 @@
 table (filter, conf, text) -> (value text, characters consumed) obtained from the live handlers
 of `FilterFactory.make_filter`.  `Props/C01.lean` ties both to the reference semantics
 `Model/RouterBuiltin.lean` (`builtin_masks_pinned`, `builtin_probes_agree`), so editing a mask or
-a converter re-opens a proof obligation."""
-from harness.extract_tables import lstr, llist
+a converter re-opens a proof obligation.
+
+`rb…` tables (tie of the *concrete* filter environment `Model/RouterBuiltinEnv.lean`, which the C01/C19
+theorems `…_builtin` are stated over): `rbEnvProbes` = the live handlers' full answers (value as
+the harness ships it, characters consumed) per handler identity `name(args)` and text, newline and
+non-ASCII digit cases included; `rbFloatConv` = `repr(float(text))` for the probed texts outside the
+exactly modelled domain (the parameter `FloatConv`); `rbFloatFmt` = the live `float` formatter per
+`repr`.  `Props/C01.lean: builtin_env_probes_agree`, `builtin_float_fmt_agrees`."""
+from harness.extract_tables import lstr, llist, lbool
 
 PATH_CONFS = ['', '/end', '.tar/', '+x', '(1)', '[a]', '$', '^', '|', '?', '*', '.', '\\', 'a']
 INT_TEXTS = ['', '0', '12', '-7', '007', '-', '-0', '1a', 'a1', '+1', '1-2', '12/x', '--1', ' 1', '1.5', '-12x', '9' * 25]
 FLOAT_TEXTS = ['1.5', '-0.25', '3', '1.', '.5', '1e3', '10.0x', '1.5.2', '-', '-.5', '00.10', '1..2', '', 'x', '-3.0.00001',
                '12/7.5', '1.e5']
+
+
+RB_INT_TEXTS = INT_TEXTS + ['٣', '1٣x', '-٠٧', '۱۲', '-', '٣-']
+RB_FLOAT_TEXTS = FLOAT_TEXTS + [
+    '0', '-0', '-0.0', '0.000', '000', '5', '007.50', '0.0001', '0.00001', '0.000015', '123456789012345',
+    '1234567890123456', '0.1234567890123456', '1000000000000000', '10000000000000000', '10000000000000000.0',
+    '1' + '0' * 22, '1' + '0' * 23, '٣.٥', '1.٥x', '12345.678e', '-12.50/', '3.', '3..', '3.a', '9' * 15 + '0' * 285,
+    '0.' + '0' * 289 + '1', '0.' + '0' * 291 + '1', '12345678901234567890', '0.1' + '0' * 20 + '1', '1' + '0' * 309,
+    '0.3', '2.675', '1.1', '100.0', '99999999999999.9', '4.35', '0.1', '-1.7976931348623157',
+    '123456789.123456789', '1e5', '5e-324', '-.5', '--1', '-1.-2']
+RB_PATH_EXTRA = [('', 'a\n'), ('', 'a\nb'), ('', '\n'), ('', 'a\n\n'), ('', 'ab\n'), ('/end', 'a\n/end'),
+                 ('/end', 'a/end\nb/end'), ('/end', 'a/end/end\n/end'), ('\n', 'a\nb'), ('\n', 'a\n\n'), ('a', 'aaa\naa'),
+                 ('.', '-3.1.5'), ('.', '-3.1.5.0'), ('-5', 'a-5-05'), ('-5', 'a-5-5'), ('0', 'a05/b'), ('0', 'a05.0/b'),
+                 ('é', 'xéyéz'), ('/', 'a/b/c/'), ('/', '/'), ('/', '//'), ('<q>', 'ab<q>'), (':x', 'a:x:x')]
+RB_FMT_VALUES = [0.0, -0.0, 5.0, 0.5, 1.5, -0.25, 100.0, 1e15, 1e16, 1.5e16, 1e22, 1e23, 1.2345678901234567e+16,
+                 1e-4, 1e-5, 1.5e-5, 1.234e-7, 123.456, 1e100, 1.7976931348623157e308, 5e-324, 0.1, 1 / 3,
+                 123456789012345680.0, -1e-10, 2.5e-300, 1e300]
+
+
+def lchars(s):
+    """Lean term of type `List Char`; long runs of one character as `List.replicate` (the kernel
+    evaluates `String.toList` of a long literal in quadratic time)"""
+    if len(s) <= 40:
+        return '%s.toList' % lstr(s)
+    parts, i = [], 0
+    while i < len(s):
+        j = i
+        while j < len(s) and s[j] == s[i]:
+            j += 1
+        if j - i >= 12:
+            parts.append(('run', s[i], j - i))
+        elif parts and parts[-1][0] == 'txt' and len(parts[-1][1]) < 40:
+            parts[-1] = ('txt', parts[-1][1] + s[i:j])
+        else:
+            parts.append(('txt', s[i:j]))
+        i = j
+    return '(' + ' ++ '.join('List.replicate %d %s' % (x[2], "'%s'" % x[1]) if x[0] == 'run' else '%s.toList' % lstr(x[1])
+                             for x in parts) + ')'
+
+
+def enc_val(v):
+    """(is it a `str`, the text the harness ships for it)"""
+    if isinstance(v, str):
+        return True, v
+    return False, '%s:%r' % (type(v).__name__, v)
+
+
+def rb_exact_float_text(text):
+    """mirror of `exactDec (floatLex text).dec` (Model/RouterBuiltinEnv.lean) for a whole mask text"""
+    neg = text.startswith('-')
+    body = text[1:] if neg else text
+    ip, _, fp = body.partition('.')
+    al = ''.join(str(int(c)) for c in ip + fp)
+    d1 = al.lstrip('0')
+    ds = d1.rstrip('0')
+    if not ds:
+        return True
+    pt = len(ip) - (len(al) - len(d1))
+    return len(ds) <= 15 and -290 <= pt <= 300
 
 
 def path_texts(conf):
@@ -46,4 +112,38 @@ def generate():
                % ',\n  '.join('(%s, %s, %s, %s)' % (lstr(a), lstr(b), lstr(t),
                                                     'none' if r is None else 'some (%s, %d)' % (lstr(r[0]), r[1]))
                                for a, b, t, r in probes))
+    # --- the concrete environment ------------------------------------------------------------
+    env_probes, fconv = [], {}
+    rb_cases = [('int', None, RB_INT_TEXTS), ('int', '', RB_INT_TEXTS[:6]), ('float', None, RB_FLOAT_TEXTS)]
+    rb_cases += [('path', c, path_texts(c)) for c in PATH_CONFS]
+    extra = {}
+    for c, t in RB_PATH_EXTRA:
+        extra.setdefault(c, []).append(t)
+    rb_cases += [('path', c, ts) for c, ts in extra.items()]
+    for name, conf, texts in rb_cases:
+        fid = '%s(%s)' % (name, conf)
+        h = FilterFactory.make_filter(name, conf)[0]
+        for t in texts:
+            v, n, sel = h(t)
+            assert sel is None
+            if v is None:
+                env_probes.append((fid, t, None))
+                continue
+            isstr, txt = enc_val(v)
+            env_probes.append((fid, t, (isstr, txt, n)))
+            if name == 'float' and not rb_exact_float_text(t[:n]):
+                fconv[t[:n]] = repr(v)
+    out.append('/-- (handler identity, text, answer of the live handler: is the value a `str`, the value as the\n'
+               'harness ships it (`type:repr` for a converted one), characters consumed) -/\n'
+               'def rbEnvProbes : List (String × List Char × Option (Bool × List Char × Nat)) := [\n  %s]\n'
+               % ',\n  '.join('(%s, %s, %s)' % (lstr(f), lchars(t),
+                                                 'none' if r is None else 'some (%s, %s, %d)' % (lbool(r[0]), lchars(r[1]), r[2]))
+                               for f, t, r in env_probes))
+    out.append('/-- `repr(float(text))` for the probed mask texts outside the exactly modelled domain -/\n'
+               'def rbFloatConv : List (List Char × List Char) := [\n  %s]\n'
+               % ',\n  '.join('(%s, %s)' % (lchars(k), lchars(v)) for k, v in sorted(fconv.items())))
+    f_out = FilterFactory.make_filter('float', None)[1]
+    out.append('/-- (`repr(x)`, `_float_out(x)`): the live formatter of the `float` filter -/\n'
+               'def rbFloatFmt : List (List Char × List Char) := [\n  %s]\n'
+               % ',\n  '.join('(%s, %s)' % (lchars(repr(x)), lchars(f_out(x))) for x in RB_FMT_VALUES))
     return '\n'.join(out)
